@@ -398,9 +398,28 @@ P_ARGS = 'exactly_lib.type_val_deps.types.program.sdv.arguments'
 P_LIST_SDVS = 'exactly_lib.type_val_deps.types.list_.list_sdvs'
 
 
+class PrimElemI(Interface):
+    """the primitive (StringSource, StringTransformer ...) of an element: keeps the identity token"""
+    attrs = {'ident': Int, 'g_parts': Any_}
+    methods = {'contents': Method(returns=Any_), 'structure': Method(returns=Any_)}
+
+
+class AdvElemI(Interface):
+    attrs = {'ident': Int}
+    methods = {'primitive': Method(returns=Iface(PrimElemI),
+                                   ensures=lambda self, environment, result: result.ident == self.ident)}
+
+
+class ResolvedValidatorI(Interface):
+    methods = {'validate_pre_sds_if_applicable': Method(returns=Opt(Any_)),
+               'validate_post_sds_if_applicable': Method(returns=Opt(Any_))}
+
+
 class ResolvedI(Interface):
     """what an element resolves to (a ddv): keeps the identity token of the element it came from"""
-    attrs = {'ident': Int, 'validator': Any_}
+    attrs = {'ident': Int, 'validator': Iface(ResolvedValidatorI)}
+    methods = {'value_of_any_dependency': Method(returns=Iface(AdvElemI),
+                                                 ensures=lambda self, tcds, result: result.ident == self.ident)}
 
 
 class ElementI(Interface):
@@ -1190,3 +1209,66 @@ for _mod, _cls, _extra in ((setup_from_parts, 'SetupPhaseInstructionFromParts', 
                ensures={'phases other than [assert]: the main step is applied AS NON-ASSERTION (non-zero exit code => '
                         'HARD_ERROR)': lambda trace: applied_as(trace) in ([], [AS_NON_ASSERTION])},
                raises_only=())
+
+
+# ============================================================================== the stdin set in [setup]
+
+from exactly_lib.impls.instructions.setup import stdin as stdin_instruction
+from exactly_lib.test_case.phases.setup.settings_builder import SetupSettingsBuilder
+from exactly_lib.execution.partial_execution import setup_settings_handler
+
+P_STDIN = 'exactly_lib.impls.instructions.setup.stdin'
+P_SSH = 'exactly_lib.execution.partial_execution.setup_settings_handler'
+
+SETTINGS_BUILDER = Inst(SetupSettingsBuilder, _stdin=Opt(Any_), _environ=Opt(Any_))
+
+
+class EnvForStdinI(Interface):
+    attrs = {'symbols': Any_, 'tcds': Any_}
+
+
+M.contract(P_STDIN + ':_Instruction.main',
+           params=dict(self=Inst(stdin_instruction._Instruction, _contents=Iface(ElementI)),
+                       environment=Iface(EnvForStdinI), settings=Any_, os_services=Any_,
+                       settings_builder=SETTINGS_BUILDER),
+           returns=Any_,
+           ensures={
+               'the stdin setting becomes: the text source of the instruction, resolved, for the directories of this '
+               'test case': lambda self, environment, settings_builder:
+               type(settings_builder._stdin) is stdin_instruction._StdinOfStringSource
+               and settings_builder._stdin._string_source.ident == self._contents.ident
+               and settings_builder._stdin._tcds is environment.tcds,
+               'success': lambda result: result[0] is None,
+           }, raises_only=())
+
+M.contract(P_STDIN + ':_StdinOfStringSource.resolve',
+           params=dict(self=Inst(stdin_instruction._StdinOfStringSource, _string_source=Iface(ResolvedI), _tcds=Any_),
+                       environment=Any_),
+           returns=Any_,
+           ensures={'the string source primitive of the text source that was set':
+                    lambda self, result: result.ident == self._string_source.ident},
+           raises_only=())
+
+
+class StdinAdvI(Interface):
+    """the stdin setting (an AdvWValidation[StringSource]); `resolve` keeps the identity token"""
+    attrs = {'ident': Int}
+    methods = {'resolve': Method(returns=Iface(PrimElemI), ensures=lambda self, environment, result: result.ident == self.ident),
+               'validate': Method(returns=Opt(Any_))}
+
+
+M.contract(P_SSH + ':StandardSetupSettingsHandler.as_atc_execution_input', inline=True,
+           params=dict(self=Inst(setup_settings_handler.StandardSetupSettingsHandler,
+                                 _builder=Inst(SetupSettingsBuilder, _stdin=Opt(Iface(StdinAdvI)), _environ=Opt(Any_)))),
+           ensures={'the stdin and environ that the [setup] phase left in the builder': lambda self, result:
+           type(result) is setup_settings_handler.AtcExecutionInputAdv
+           and result._stdin == self._builder._stdin and result._environ == self._builder._environ},
+           raises_only=())
+
+M.contract(P_SSH + ':AtcExecutionInputAdv.resolve', inline=True,
+           params=dict(self=Inst(setup_settings_handler.AtcExecutionInputAdv, _stdin=Opt(Iface(StdinAdvI)),
+                                 _environ=Opt(Any_)), environment=Any_),
+           ensures={'stdin: none, or the primitive of the stdin setting; environ unchanged': lambda self, result:
+           type(result) is AtcExecutionInput and result[1] == self._environ
+           and ((result[0] is None) if self._stdin is None else (result[0].ident == self._stdin.ident))},
+           raises_only=())
